@@ -1,4 +1,5 @@
 import ColoVerif.Model.Spread
+import ColoVerif.Model.SpreadF
 import ColoVerif.Model.Freespace
 import Driver.Common
 import Driver.CircuitIO
@@ -11,6 +12,9 @@ Driver for C06.  Floats travel as exact dyadics `mantissa exp2`; rationals are p
                                                         -> coords q0 q1 …          (exact rationals)
   spreada … same … res (m e)*n                          -> close <n> inside ok | far <i> | outside <i>
   simple  <axis> <n> <bx> <by> limX limY cells          -> coords q0 q1 …
+  spreadf … same as spreadq …                           -> coordsf m0 e0 m1 e1 …   (binary32 model `SpreadF`,
+                                                           every float as its canonical dyadic: odd mantissa,
+                                                           `0 0` for zero — compared EXACTLY with the code)
   blend <bm> <be> <lb> <ub> <size> <ret>                -> within | beyond
   circuit … end  (circuit block)                        -> (nothing)
   grid <sizeFactor m e> <sideMargin m e>                -> grid minX maxX minY maxY | limX… | limY…
@@ -79,6 +83,24 @@ def parseSpread (withDT : Bool) : List String → Option SpreadIn
     some ⟨(int! axis).toNat, nn, ds, ts, v, r2⟩
   | _ => none
 
+/-- canonical `mantissa exp2` of a dyadic rational (odd mantissa; `0 0` for zero), the format of
+`vc::exactDouble` -/
+def stripTwos : Nat → Int → Int → Int × Int
+  | 0, m, e => (m, e)
+  | fuel + 1, m, e => if m % 2 == 0 && m != 0 then stripTwos fuel (m / 2) (e + 1) else (m, e)
+
+def showDyadic (q : Rat) : String :=
+  if q = 0 then "0 0"
+  else if q.den = 1 then
+    let (m, e) := stripTwos (q.num.natAbs.log2 + 1) q.num 0
+    s!"{m} {e}"
+  else if 2 ^ q.den.log2 = q.den then s!"{q.num} -{q.den.log2}"
+  else s!"{q.num}/{q.den}"
+
+def modelSpreadF (s : SpreadIn) : List Rat :=
+  if s.axis == 0 then ColoVerif.SpreadF.spreadCoordXF s.view s.n s.target s.demand
+  else ColoVerif.SpreadF.spreadCoordYF s.view s.n s.target s.demand
+
 def modelSpread (s : SpreadIn) : List Rat :=
   if s.axis == 0 then spreadCoordX s.view s.n s.target s.demand else spreadCoordY s.view s.n s.target s.demand
 
@@ -126,6 +148,10 @@ def step (c : Circuit) (ws : List String) : Circuit × List String :=
     match parseSpread true rest with
     | some s => (c, ["coords " ++ " ".intercalate ((modelSpread s).map showRat)])
     | none => (c, ["bad-op spreadq"])
+  | "spreadf" :: rest =>
+    match parseSpread true rest with
+    | some s => (c, ["coordsf " ++ " ".intercalate ((modelSpreadF s).map showDyadic)])
+    | none => (c, ["bad-op spreadf"])
   | "spreada" :: rest =>
     match parseSpread true rest with
     | some s => (c, [checkApprox s (parseRes (s.rest.drop 1))])
